@@ -219,7 +219,7 @@ class URL:
             path = (
                 (environ.get("SCRIPT_NAME", "") + environ.get("PATH_INFO", ""))
                 .encode("latin1")
-                .decode("utf8")
+                .decode("utf8", "replace")  # like ASGI servers do for scope["path"]
             )
             query_string = environ.get("QUERY_STRING", "").encode("latin-1")
             host_header = environ.get("HTTP_HOST", None)
@@ -240,6 +240,15 @@ class URL:
         path = path.replace("%", "%25").replace("?", "%3F").replace("#", "%23")
 
         if host_header is not None:
+            try:  # an unusable Host header (e.g. "[" or "a:b") is ignored
+                urlsplit(f"//{host_header}").port
+            except ValueError:
+                host_header = None
+            else:
+                if set(host_header) & set("/?#@\\"):
+                    host_header = None
+
+        if host_header is not None:
             url = f"{scheme}://{host_header}{path}"
         elif server is None:
             url = path
@@ -254,7 +263,7 @@ class URL:
                 url = f"{scheme}://{host}:{port}{path}"
 
         if query_string:
-            url = f"{url}?{query_string.decode()}"
+            url = f"{url}?{query_string.decode('latin-1')}"
 
         return url
 
